@@ -257,6 +257,171 @@ def run(ctx):
                          "at coproduct branches) are consequences of WHERE each sub-term is lowered / translated; a change of that is "
                          "reported before a program exists that makes a validator fail")
     golden.check(ctx, "lowering", "golden_lowering.json")
+    ctx.rule("variable-equations", "free-variable and bound-variable equations of both IRs, arm by arm (rules/golden_freevars.json, shared "
+                                   "with C19): capture lists of closure conversion come from them, and a variable missing from one makes the "
+                                   "SPSLow validator fail (`ImplicitBlockCapture`) on an accepted program")
+    golden.check(ctx, "variable-equations", "golden_freevars.json")
+    rule_stack_parity(ctx)
+    from . import c03
+    c03.rule_sealed_intro(ctx)
     ctx.assume("the validators themselves (BranchJoinValidator, SpsLowValidator, StackAnalyzer) are NOT analysed: that they establish the "
                "stated invariants is trusted; emitters are infallible by type (`Err(never) => match never {}`)")
     return {}
+
+
+def _lin(sx):
+    """GF(2) linear form of a word count: frozenset of monomials among {'1', 'elements', 'arity', ..}; None = not understood"""
+    sx = sx.strip()
+    m = re.match(r"^-?\d+$", sx)
+    if m:
+        return frozenset(["1"]) if int(sx) % 2 else frozenset()
+    m = re.match(r"^\(\. \S+ (\w+)\)$", sx)
+    if m:
+        return frozenset([m.group(1)])
+    m = re.match(r"^\$\S+[./](\w+)$", sx)
+    if m:
+        return frozenset([m.group(1)])
+    if not (sx.startswith("(") and sx.endswith(")")):
+        return None
+    # split the list
+    parts, depth, cur, prev = [], 0, "", ""
+    for ch in sx[1:-1]:
+        if ch in "(<":
+            depth += 1
+        elif ch == ")" or (ch == ">" and prev != "-"):
+            depth -= 1
+        prev = ch
+        if ch == " " and depth == 0:
+            if cur:
+                parts.append(cur)
+            cur = ""
+        else:
+            cur += ch
+    if cur:
+        parts.append(cur)
+    head, args = parts[0], parts[1:]
+    if head.startswith("(closure ") and len(args) == 1:     # a local helper closure applied on the spot: beta-reduce
+        return _lin(re.sub(r"\$c\d+\.0", lambda _m: args[0], head[len("(closure "):-1]))
+    if head in ("Neg", "Deref"):
+        return _lin(args[0])
+    if head in ("Add", "Sub"):
+        a, b = _lin(args[0]), _lin(args[1])
+        return None if a is None or b is None else a ^ b
+    if re.search(r"::(expect|unwrap|unwrap_or|try_from|from|into)$", head) or head == "?":
+        return _lin(args[0])
+    return None
+
+
+def rule_stack_parity(ctx):
+    rule = "stack-parity-agreement"
+    facts = ctx.facts
+    ctx.rule(rule, "AMD64 emitter: the static table that propagates the parity of rsp through the program graph "
+                   "(Emitter::instruction_flips_stack) agrees, modulo 2, with the number of words the emission of the same instruction "
+                   "moves (the shift_stack_parity calls of <Instruction as Emit>::emit), for the instructions emitted inline "
+                   "(PackProduct on the heap path, UnpackProduct, PopArg, PushTag, AllocContext, Clear). A disagreement makes "
+                   "`static stack-parity analysis disagrees with emission` fire (an internal error while lowering an accepted program) "
+                   "or, without debug assertions, mis-aligns host calls. PushArg and Intrinsic delegate to other emitters: not analysed")
+    tab = next((p for p in facts.bodies() if p.endswith("Emitter::<'e>::instruction_flips_stack")), None)
+    emit = next((p for p in facts.bodies() if re.search(r"^<zydeco_assembly::syntax::Instruction as zydeco_amd64::emit::Emit<'a>>::emit$", p)), None)
+    if tab is None or emit is None:
+        ctx.anchor_lost(rule, "instruction_flips_stack / <Instruction as Emit>::emit not found")
+        return
+
+    def top_match(h):
+        return next((m for m in H.walk(h["body"]) if H.kind(m) == "Match" and not m.get("src")), None)
+    ht, he = facts.hir(tab), facts.hir(emit)
+    mt, me = top_match(ht), top_match(he)
+    counts = None      # the table gives word counts through a helper: `helper(instruction) % 2 != 0`
+    if mt is None:
+        e0 = A.ArmEnv(); e0.strip = True; e0.bind_params(ht); e0.absorb(ht["body"])
+        m0 = re.match(r"^\((Eq|Ne) \(Rem \((\S+) \$P0\) 2\) 0\)$", A.sexpr(ht["body"], e0))
+        if m0 and m0.group(2) in facts.bodies():
+            counts = m0.group(1)
+            tab = m0.group(2)
+            ht = facts.hir(tab)
+            mt = top_match(ht)
+    if mt is None or me is None:
+        ctx.anchor_lost(rule, "no match over Instruction in the table / the emitter")
+        return
+    table = {}
+    for a in mt["arms"]:
+        p = A.strip_or(a["pat"])
+        pats = p["pats"] if H.kind(p) == "Or" else [p]
+        for q in pats:
+            e = A.ArmEnv(); e.strip = True; e.bind_params(ht); e.bind_pat(q); e.absorb(ht["body"])
+            sx = A.sexpr(a["body"], e)
+            v = A.pat_shape(q).split("(")[0].split("{")[0]
+            if counts is not None:
+                l = _lin(sx)
+                table[v] = None if l is None else (l if counts == "Ne" else l ^ frozenset(["1"]))
+            elif sx == "True":
+                table[v] = frozenset(["1"])
+            elif sx == "False":
+                table[v] = frozenset()
+            else:
+                m = re.match(r"^\((Eq|Ne) \(Rem (.+) 2\) 0\)$", sx)
+                l = _lin(m.group(2)) if m else None
+                table[v] = None if l is None else (l ^ frozenset(["1"]) if m.group(1) == "Eq" else l)
+            table[v + ":sx"] = sx
+    par = {}
+    st = [he["body"]]
+    while st:
+        p = st.pop()
+        for c in H.children(p):
+            if isinstance(c, dict):
+                par[id(c)] = p
+                st.append(c)
+    n = 0
+    for a in me["arms"]:
+        v = A.pat_shape(a["pat"]).split("(")[0].split("{")[0]
+        e = A.ArmEnv(); e.strip = True; e.bind_params(he); e.bind_pat(A.strip_or(a["pat"])); e.absorb(a["body"])
+        delegates = [c for c in H.walk(a["body"]) if H.kind(c) in ("Call", "MethodCall") and re.search(r" as zydeco_amd64::emit::Emit<'a>>::emit$", H.callee(c) or "")]
+        if delegates:
+            ctx.note("%s: %s is emitted by %s: not analysed" % (rule, v, (H.callee(delegates[0]) or "").split(" as ")[0]))
+            continue
+        total = frozenset()
+        bad = None
+        for c in H.walk(a["body"]):
+            if not (H.kind(c) in ("Call", "MethodCall") and (H.callee(c) or "").endswith("shift_stack_parity")):
+                continue
+            # skip the stack-allocation path (dead: LocalUnboxing::stack_values is never populated; checked below)
+            cur, dead = c, False
+            while id(cur) in par:
+                q = par[id(cur)]
+                if H.kind(q) == "If" and any(H.kind(y) == "Field" and y.get("name") == "stack_alloc" for y in H.walk(q.get("c") or {})) \
+                        and any(y is cur for y in H.walk(q.get("t") or {})):
+                    dead = True
+                cur = q
+            if dead:
+                continue
+            l = _lin(A.sexpr(H.call_args(c)[1], e))
+            if l is None:
+                bad = A.sexpr(H.call_args(c)[1], e)[:120]
+                break
+            total ^= l
+        n += 1
+        want = table.get(v)
+        if bad is not None or want is None:
+            ctx.violation(rule, "%s:unclassified" % v, "the word count `%s` / the table entry `%s` of %s is not a linear form the rule "
+                          "understands" % (bad, table.get(v + ":sx"), v), [facts.bodies()[emit]["loc"][0], a["ln"]])
+            continue
+        ctx.check(total == want, rule, "%s:parity" % v, "emission of %s moves a number of words with parity {%s} but "
+                  "instruction_flips_stack says {%s} (`%s`): the static analysis and the emitter disagree on whether the instruction "
+                  "flips the 16-byte alignment of rsp" % (v, " + ".join(sorted(total)) or "0", " + ".join(sorted(want)) or "0", table.get(v + ":sx")),
+                  [facts.bodies()[tab]["loc"][0], mt["ln"]], detail={"instruction": v, "parity": sorted(total)})
+    ctx.floor(rule, "instructions compared", n, 5)
+    writers = [c["from"] for k, cs in facts.calls_to().items() if re.search(r"HashSet.*::insert$|::extend$", k) for c in cs
+               if "unbox" in c["from"] and "stack_values" in str(c)]
+    uses = 0
+    for p, bd in facts.bodies().items():
+        if not bd["loc"][0].startswith("lang/assembly/") or "::tests::" in p or "{closure" in p:
+            continue
+        h = facts.hir(p)
+        if h is None:
+            continue
+        for x in H.walk(h["body"]):
+            if H.kind(x) == "MethodCall" and x["name"] in ("insert", "extend") and any(H.kind(y) == "Field" and y.get("name") == "stack_values" for y in H.walk(x["recv"])):
+                uses += 1
+    ctx.check(uses == 0, rule, "stack-alloc:dead", "LocalUnboxing::stack_values is populated (%d site(s)): stack-allocated products are now "
+              "emitted, and their PackProduct moves arity + elements + 1 words, which instruction_flips_stack (elements only) does not "
+              "account for" % uses)
